@@ -6,13 +6,17 @@ def run(ctx):
     quick = ctx.tier == "quick"
     b = ctx.go_test_binary("containerd-stargz-grpc/db", "h_db", module_dir="cmd")
     if b:
+        # main pass: strict (regression inputs, conforming / builder / non-conforming layers)
         ctx.correspond(b, "TestVerifC05", "svdriver_c05", "c05",
                        env={"VERIF_N": 120 if quick else 1500}, timeout=1700)
+        # separate pass: inputs of the known findings (each carries its signature) and evidence notes
+        ctx.correspond(b, "TestVerifC05Known", "svdriver_c05", "c05known",
+                       env={"VERIF_N": 25 if quick else 300}, timeout=900)
     return ctx.finish(
         level="proof",
         rule="one case = one layer (TOC + blob) opened by memory.NewReader and db.NewReader in a shared bolt "
              "file (1-4 layers per session, closed in random order with re-dumps of the survivors); "
-             "file; layers are distinct by (source: real builder under random chunk-size/min-chunk-size/"
+             "layers are distinct by (source: real builder under random chunk-size/min-chunk-size/"
              "compression/prioritized-files options, or hand-serialised TOC around real payload; feature set: "
              "implicit dirs, repeated dirs, hardlink chains, missing digests, ./ ../ spellings, empty xattrs, "
              "inner-offset streams, TOC trailing bytes; stream: conforming / candidate / non-conforming); every "
